@@ -1,5 +1,5 @@
 CONSTANTS
-  Part = "name"
+  Part = "codech"
   Keys <- MCKeys
   MacStrs <- MCMacStrs
   WinStrs <- MCWinStrs
@@ -17,7 +17,5 @@ CONSTANTS
 INIT Init
 NEXT Next
 CHECK_DEADLOCK FALSE
-INVARIANT RecordsInside
-INVARIANT RecordsFaithful
-INVARIANT StorageTight
-INVARIANT NameRoundTrip
+INVARIANT ResultsStable
+INVARIANT CodecHistEmit
